@@ -25,7 +25,12 @@ pub fn create_master(config: MasterChannelConfig, enabled: bool) -> (MasterProbe
         config,
         rx,
     );
-    (MasterProbe { task: Box::new(task) }, MasterChannel::new(tx, MasterChannelType::Stream))
+    (
+        MasterProbe {
+            task: Box::new(task),
+        },
+        MasterChannel::new(tx, MasterChannelType::Stream),
+    )
 }
 
 pub fn group_var(v: Variation) -> (u8, u8) {
